@@ -139,23 +139,29 @@ def _run_case(case):
     rev = gm.reversible(spec)
     tol = _tol(pi_lib, rev)
     nontrivial = False
+    qnorm = float(np.abs(Qn).sum(-1).max())
+    cond2 = float(max(pi_lib) / min(pi_lib))
     for i, t in enumerate(ts):
         Pi = P[i]
         C["identity_checks"] += 1
         if not np.all(np.isfinite(Pi)):
             V.append(tt.viol("C04:p_t:nonfinite:" + kind, "non-finite P(t=%g)" % t, spec=spec, t=t))
             continue
-        if np.abs(Pi.sum(-1) - 1).max() > 1e-9:
+        # identities on the library's own output: 1e-9 in the moderate range; in the extreme corner of the quantifier (rates up to 1e4
+        # with t up to 100, frequencies down to 1e-6) what double precision arithmetic can deliver: the round-off of any exp(Qt)
+        # grows with ||Q|| t, that of the symmetrised eigendecomposition with max(pi)/min(pi)
+        tol_id = max(1e-9, 20 * 2.2e-16 * qnorm * t, 1e2 * 2.2e-16 * cond2)
+        if np.abs(Pi.sum(-1) - 1).max() > tol_id:
             V.append(tt.viol("C04:p_t:rowsum:" + kind, "row of P(%g) sums to 1%+.3g" % (t, np.abs(Pi.sum(-1) - 1).max()), spec=spec, t=t))
-        if Pi.min() < -1e-9:
+        if Pi.min() < -tol_id:
             V.append(tt.viol("C04:p_t:negative:" + kind, "P(%g) has entry %.3g" % (t, Pi.min()), spec=spec, t=t))
         if t == 0.0 and np.abs(Pi - np.eye(S)).max() > 1e-9:
             V.append(tt.viol("C04:p_t:P0:" + kind, "P(0) != I (max dev %.3g)" % np.abs(Pi - np.eye(S)).max(), spec=spec))
         if rev:
-            if np.abs(pi_lib @ Pi - pi_lib).max() > 1e-9:
+            if np.abs(pi_lib @ Pi - pi_lib).max() > tol_id:
                 V.append(tt.viol("C04:p_t:stationarity:" + kind, "pi P(%g) != pi (%.3g)" % (t, np.abs(pi_lib @ Pi - pi_lib).max()), spec=spec, t=t))
             F = pi_lib[:, None] * Pi
-            if np.abs(F - F.T).max() > 1e-9:
+            if np.abs(F - F.T).max() > tol_id:
                 V.append(tt.viol("C04:p_t:detailed-balance:" + kind, "pi_i P_ij != pi_j P_ji at t=%g (%.3g)" % (t, np.abs(F - F.T).max()), spec=spec, t=t))
         # comparison with the matrix exponential
         E1 = ctmc.p_t(Qn, t)
@@ -179,7 +185,7 @@ def _run_case(case):
         Pst = model.p_t(torch.tensor([[s_ + t_]], dtype=torch.float64)).detach().numpy()[0, 0]
         C["identity_checks"] += 1
         d = np.abs(Pst - P[0] @ P[len(ts) - 2]).max()
-        if d > 1e-9:
+        if d > max(1e-9, 20 * 2.2e-16 * qnorm * (s_ + t_), 1e2 * 2.2e-16 * cond2):
             V.append(tt.viol("C04:p_t:semigroup:" + kind, "P(s+t) != P(s)P(t) for s=%g t=%g (%.3g)" % (s_, t_, d), spec=spec))
     # normalisation: one expected substitution per unit time
     rate = -(pi_lib * np.diag(Qn)).sum()
